@@ -97,7 +97,9 @@ func listQueries(e *Exec) []Disc {
 	// ---- whitelist
 	{
 		var r enttypes.QueryWhitelistResponse
-		must(w.Query("/mainchain.enterprise.v1.Query/Whitelist", &enttypes.QueryWhitelistRequest{}, &r))
+		if qe := w.Query("/mainchain.enterprise.v1.Query/Whitelist", &enttypes.QueryWhitelistRequest{}, &r); qe != nil {
+			add("Whitelist query fails: %v", qe)
+		}
 		want := w.App.EnterpriseKeeper.GetAllWhitelistedAddresses(ctx)
 		seen := map[string]int{}
 		for _, a := range r.Addresses {
@@ -179,12 +181,19 @@ func listQueries(e *Exec) []Disc {
 	type sr = *streamtypes.StreamResult
 	var streams []sr
 	senders, receivers := map[string]bool{w.Bech("O"): true}, map[string]bool{w.Bech("O"): true}
-	w.App.StreamKeeper.IterateAllStreams(ctx, func(recv, snd sdk.AccAddress, s streamtypes.Stream) bool {
-		sc := s
-		streams = append(streams, &streamtypes.StreamResult{Receiver: recv.String(), Sender: snd.String(), Stream: &sc})
-		senders[snd.String()], receivers[recv.String()] = true, true
-		return false
-	})
+	func() {
+		defer func() {
+			if p := recover(); p != nil {
+				add("walking the stored streams panics: %v", firstLine(fmt.Sprint(p)))
+			}
+		}()
+		w.App.StreamKeeper.IterateAllStreams(ctx, func(recv, snd sdk.AccAddress, s streamtypes.Stream) bool {
+			sc := s
+			streams = append(streams, &streamtypes.StreamResult{Receiver: recv.String(), Sender: snd.String(), Stream: &sc})
+			senders[snd.String()], receivers[recv.String()] = true, true
+			return false
+		})
+	}()
 	eqS := func(a, b sr) bool { return protoEq(a, b) }
 	for _, s := range streams {
 		var r streamtypes.QueryStreamByReceiverSenderResponse
